@@ -9,6 +9,7 @@ def check(run, args):
     thorough = run.tier == "thorough"
     run.build_harness()
     d = run.tla_dir()
+    outer = run.defer          # (this family is also run as one of several: the caller then collects the violations)
     run.defer = True
     # (A) + replay of every mini-AST case on the real library
     run.tlc("GoMini.tla", "GoMini.cfg", workers=8)
@@ -47,7 +48,7 @@ def check(run, args):
             continue
         fam_imports.validate(run, t, st)
     run.cov["corpus"] = stats_total
-    run.defer = False
+    run.defer = outer
     # known finding F12 is keyed per file: "F12:<file>"
     run.assumptions += ["AST comparison ignores positions, comments, ParenExpr, empty statements and the grouping of import declarations; literals are compared by go/constant value",
                         "files with dot-imports are skipped and counted (attribution of bare identifiers needs type information)",
